@@ -108,13 +108,13 @@ func (s *Server) rejectPrivateAndLoopbackIPAction(_ context.Context, in egress.I
 		isWellKnownIPv4LocalDomainName := false
 		isWellKnownIPv6LocalDomainName := false
 		for _, d := range wellKnownIPv4LocalDomainNames {
-			if domainName == d {
+			if strings.EqualFold(domainName, d) {
 				isWellKnownIPv4LocalDomainName = true
 				break
 			}
 		}
 		for _, d := range wellKnownIPv6LocalDomainNames {
-			if domainName == d {
+			if strings.EqualFold(domainName, d) {
 				isWellKnownIPv6LocalDomainName = true
 				break
 			}
@@ -129,9 +129,12 @@ func (s *Server) rejectPrivateAndLoopbackIPAction(_ context.Context, in egress.I
 			}
 		}
 	} else if len(ip) == 0 {
-		return egress.Action{
-			Action: appctlpb.EgressAction_DIRECT,
-		}
+		// A request without a host is connected to the local machine.
+		ip = net.ParseIP("127.0.0.1")
+	}
+	if ip.IsUnspecified() {
+		// The unspecified address is routed to the local machine.
+		ip = net.ParseIP("127.0.0.1")
 	}
 
 	if !ip.IsPrivate() && !ip.IsLoopback() {
